@@ -516,6 +516,20 @@ def _check_identity(ctx, name, X, Hkk, fullFk, tags, WH=None):
     err = _fro(X @ A - np.eye(n))
     if err <= 1e-8 * kap:
         ctx.err("identity_" + name, err / kap, 1e-8)
+    if WH is not None and WH.shape == X.shape and err <= 1e-8 * kap:
+        # ... and it is derived from the CURRENT receive filter: the IA
+        # filter W^H followed by the compensation of the equivalent channel,
+        # (W^H Hkk full_F)^-1 W^H  (a filter left over from an earlier W
+        # also satisfies the identity above)
+        ref = np.linalg.solve(WH @ A, WH)
+        e2 = _fro(X - ref)
+        tol2 = 1e-8 * kap * (_fro(ref) + 1e-300)
+        if e2 <= tol2:
+            ctx.err("derived_from_current_W_" + name, e2 / (kap * (_fro(ref)
+                                                                  + 1e-300)),
+                    1e-8)
+        else:
+            return e2, tol2
     return err, 1e-8 * kap
 
 
